@@ -111,6 +111,15 @@ CHECKS = {
              'validate_labels': ['restarted'], 'quick': {'params': {'store.faults': 1}}, 'thorough': {'params': {'store.faults': 1}}},
         ],
     },
+    'C20': {
+        'level_text': 'two stages: symbolic execution of every MemoryStore method and the Server handlers yields, per path, its lock/unlock events and its accesses to the shared maps; a z3 bounded interleaving model then decides, over a symbolic schedule of 2 (quick) / 3 (thorough) threads each running any extracted trace, that no reachable state is a deadlock (Go RWMutex semantics with writer preference) and that no two threads are ever about to make conflicting accesses to the same object. A sequential harness decides that each store method meets the key-value map specification.',
+        'level_note': 'traces come from the real MemoryStore.Get/Put/Delete/List, Server.GetServiceProvider, HandlePutService, HandleDeleteService, HandleIDPInitiated, HandleLogin, HandlePutUser, HandleListServices over the real MemoryStore (sync.Mutex/RWMutex calls and map operations are recorded, not executed concurrently). The schedule is a solver variable; nothing is enumerated except which traces run together. Counterexamples are schedules of the real code\'s events (symbolic replay: Go offers no way to force a schedule natively; the two findings on the pinned tree were confirmed with hand-written native demonstrations). Outside: the Go memory model below conflicting unsynchronised accesses, more than 3 threads, handlers not listed.',
+        'harnesses': [
+            {'name': 'Harness_C20_ops', 'pkg': 'samlidp', 'replay': 'symbolic', 'mode': 'interleave', 'must_reach': ['op-done'],
+             'opts': {'trace_shared': True, 'no_sign_err': True, 'K': 1}, 'threads': {'quick': 2, 'thorough': 3}, 'budget_s': {'quick': 600, 'thorough': 3000}},
+            {'name': 'Harness_C20_seq', 'pkg': 'samlidp', 'replay': 'direct', 'must_reach': ['sequential']},
+        ],
+    },
     'C18': {
         'level_text': 'path exploration + z3 decide that both logout entry points report valid only for a rooted document whose root carries a trusted signature and whose Destination, Issuer, Status and freshness are right, and that such a response is accepted; counterexamples replayed natively on real signed XML.',
         'level_note': 'real ValidateLogoutResponseForm / Redirect, validateLogoutResponse, validateSignature and the helpers of the response flow executed from SSA on a materialised LogoutResponse (arbitrary fields, Issuer nil-able, unsigned / trusted / untrusted signature, or no root element). The library reads time.Now() here: the harness clock and the library clock are assumed to be within one second of each other. base64/flate are contract stubs (inverse of the encoder used by the harness). goxmldsig Validate as in C01.',
